@@ -306,7 +306,14 @@ func TestC17(t *testing.T) {
 					getOnEmpty = true
 				}
 				hist = append(hist, "get:fresh")
-				if msg := usable(kind, o, tm, nm); msg != "" {
+				if !withMaps && kind != "SerializerPool" && rapid.IntRange(0, 2).Draw(rt, "registerFirst") == 0 {
+					// the very first thing done with an object fresh from the factory is a registration
+					if pv, st := guard(func() { registerOn(kind, o) }); pv != nil {
+						failf(rt, c, "C17 %s(size %d, built without maps): registering on an object fresh from the empty pool panicked: %v [%s]", kind, size, pv, st)
+					}
+					custom[id] = true
+					hist = append(hist, "register-first")
+				} else if msg := usable(kind, o, tm, nm); msg != "" {
 					failf(rt, c, "C17 %s(size %d): fresh object not usable: %s", kind, size, msg)
 				}
 			}
